@@ -28,7 +28,7 @@ from ..compile import World
 from ..ctx import CTX, RunTooBig
 from ..history import History, canon, digest
 from ..rng import Streams, chance, pick, weighted
-from ..world import gen_situation, gen_value, gen_world
+from ..world import gen_situation, gen_value, gen_world, wide_knob
 from . import Result
 
 from openfisca_core import periods
@@ -211,8 +211,15 @@ def generate(seed: int, tier: str) -> dict:
 
         return generate_yaml(seed, tier, st)
     wr = st["world"]
+    wide = wide_knob(wr, tier, 0.15)
+    if wide:
+        # no literal NaN / Infinity in posted documents (not JSON); they arise all the same,
+        # from float32 overflow and from differences of infinities
+        wide["nonfinite"] = False
+        if wide.get("persons"):
+            wide["persons"] = [n for n in wide["persons"] if n <= 130] or [33]
     world = gen_world(wr, discipline="acyclic", n_vars=wr.randint(3, 8 if tier == "quick" else 12), max_depth=2,
-                      units=[("month", 60), ("year", 25), ("eternity", 8), ("day", 7)])
+                      units=[("month", 60), ("year", 25), ("eternity", 8), ("day", 7)], wide=wide)
     orr = st["ops"]
     clients = [f"K{k}" for k in range(1, orr.randint(2, 4) + 1)]
     reqs = gen_requests(orr, world, orr.randint(6, 14 if tier == "quick" else 25))
@@ -262,6 +269,8 @@ def strip_times(x):
         return {k: strip_times(v) for k, v in x.items() if k not in ("calculation_time", "formula_time")}
     if isinstance(x, list):
         return [strip_times(v) for v in x]
+    if isinstance(x, float) and x != x:
+        return "<NaN>"  # (bodies are compared as data: a NaN equals a NaN)
     return x
 
 
